@@ -410,7 +410,9 @@ def oracle(case, out):
     if complete and final_suffix:
         last = len(case) - 1
         for p, is_open in view_open.items():
-            if is_open:
+            # only for peers that really are disconnected at the end (a shrunk case may end with a `disc` of
+            # some other, unconnected peer)
+            if is_open and p not in connected:
                 v("not-closed-on-disconnect", f"connection to peer {p} lost but its open stream was never reported "
                   f"closed", last, stale_conn_task=(p in taint))
     if complete:
